@@ -6,7 +6,6 @@ use anything::{parse, query, Compound, Db, Description, Numeric, Options};
 use num::{BigInt, BigRational};
 use serde_cbor::Value as Cbor;
 use std::collections::BTreeMap;
-use std::sync::OnceLock;
 
 /// One unit of a mirrored compound: base-unit variant name ("Meter") or derived id.
 #[derive(Clone, Debug, PartialEq, Eq, PartialOrd, Ord, Hash)]
@@ -63,6 +62,8 @@ pub struct Val {
     pub unit_text: String,
     pub unit_text_plural: String,
     pub has_numerator: bool,
+    /// numer()/denom() as handed out by the tool are in canonical form: denominator > 0 and lowest terms
+    pub canonical: bool,
 }
 
 #[derive(Clone, Debug)]
@@ -87,8 +88,15 @@ pub fn to_big(r: &anything::Rational) -> BigRational {
     BigRational::new(r.numer().clone(), r.denom().clone())
 }
 
+/// The fraction as the tool stores it is canonical (what `--exact` prints and `is_integer` relies on).
+pub fn is_canonical(r: &anything::Rational) -> bool {
+    use num::{Integer, One, Signed};
+    r.denom().is_positive() && r.numer().gcd(r.denom()).is_one()
+}
+
 pub fn val_of(n: &Numeric) -> Val {
     Val {
+        canonical: is_canonical(&n.value),
         value: to_big(&n.value),
         unit: mirror(&n.unit),
         unit_text: n.unit.display(false).to_string(),
@@ -113,9 +121,30 @@ pub struct Run {
     pub desc_marks: Vec<usize>,
 }
 
+/// A long-lived in-memory database for the calling thread.  The code under test is free to make
+/// `Db` neither `Sync` nor `Send` (a cache behind a `RefCell`, say) without breaking this harness:
+/// instances are leaked, leased to one thread at a time and handed back when that thread exits,
+/// so they also stay long-lived across the sections of a check (state kept inside a `Db` between
+/// queries is therefore exercised, which C18 relies on).
 pub fn shared_db() -> &'static Db {
-    static DB: OnceLock<Db> = OnceLock::new();
-    DB.get_or_init(|| Db::in_memory().expect("in-memory database builds"))
+    use std::sync::Mutex;
+    static POOL: Mutex<Vec<usize>> = Mutex::new(Vec::new());
+    struct Lease(usize);
+    impl Drop for Lease {
+        fn drop(&mut self) {
+            if let Ok(mut p) = POOL.lock() {
+                p.push(self.0);
+            }
+        }
+    }
+    thread_local! {
+        static LEASE: Lease = {
+            let pooled = POOL.lock().ok().and_then(|mut p| p.pop());
+            Lease(pooled.unwrap_or_else(|| Box::leak(Box::new(Db::in_memory().expect("in-memory database builds"))) as *const Db as usize))
+        };
+    }
+    // SAFETY: the address is a leaked Box<Db>; the lease gives this thread exclusive use until it exits.
+    LEASE.with(|l| unsafe { &*(l.0 as *const Db) })
 }
 
 /// Evaluate a query; Err(message) iff the library panicked.
